@@ -54,7 +54,7 @@ fn one(t: Top) -> HStep {
 }
 
 pub fn generate(data: &[u16], o: &HistOpts) -> (History, HistStats) {
-    let gopts = GenOpts { errors: false, callcc: false, winds: false, handlers: false, output: false, heap: false, gc_points: false, max_depth: 3, top_forms: 1, avoid: o.avoid.clone() };
+    let gopts = GenOpts { errors: false, callcc: false, winds: false, reentry: false, handlers: false, output: false, heap: false, gc_points: false, max_depth: 3, top_forms: 1, avoid: o.avoid.clone() };
     let mut g = Gen::new(data, gopts);
     let mut steps: Vec<HStep> = vec![];
     let mut st = HistStats::default();
